@@ -32,7 +32,8 @@ EXPLANATION = ("literal obligations: for every qualifying enzyme the derived mod
 
 
 def obligations(ctx):
-    return ctx.verify(FUNCTIONS) + literal(ctx) + lemmas(ctx)
+    from props._shared import typing_state_census
+    return list(ctx.verify(FUNCTIONS) + literal(ctx) + lemmas(ctx)) + [typing_state_census(ctx, 'C12')]
 
 
 def rc(x):
